@@ -104,8 +104,11 @@ def _run_chunk(chunk):
     rec = _W['rec']
     out = []
     for i, q, ref in chunk:
+        cul = 'en-us'
+        if isinstance(q, tuple):
+            q, cul = q
         try:
-            rs = rec(q, 'en-us', reference=ref)
+            rs = rec(q, cul, reference=ref)
             out.append((i, [(r.text, r.start, r.end, r.type_name,
                              [dict(v) for v in ((r.resolution or {}).get('values') or [])]) for r in rs]))
         except Exception as e:     # Model.parse swallows exceptions; anything here is reported as such
@@ -114,9 +117,13 @@ def _run_chunk(chunk):
 
 
 def run_pipeline(tasks, nproc=16, chunk=40):
-    """tasks: [(query, reference datetime)] -> list aligned with tasks of
+    """tasks: [(query | (query, culture), reference datetime)] -> list aligned with tasks of
     [(text, start, end, type_name, [value dict, ...]), ...] or 'error:...'."""
     items = [(i, q, r) for i, (q, r) in enumerate(tasks)]
+    # keep the queries of one culture together (a worker loads a culture's model on first use), English first
+    def cul_of(t):
+        return t[1][1] if isinstance(t[1], tuple) else 'en-us'
+    items.sort(key=lambda t: (cul_of(t) != 'en-us', cul_of(t), t[0]))
     chunks = [items[k:k + chunk] for k in range(0, len(items), chunk)]
     res = [None] * len(tasks)
     if not chunks:
@@ -137,6 +144,32 @@ def whole_entity(results, query):
         if r[1] == 0 and r[2] == len(query) - 1:
             return r
     return None
+
+
+def entity_with_text(results, text):
+    """The entity whose text is `text` (case-insensitive) inside a carrier sentence."""
+    if isinstance(results, str) or results is None:
+        return None
+    for r in results:
+        if r[0].strip().lower() == text.strip().lower():
+            return r
+    return None
+
+
+def retry_in_carrier(cases, results, carriers):
+    """For bare expressions the pipeline did not recognise as a whole, ask again inside the Specs' own sentence.
+    cases[i] = (expr, R, ..., culture at index 4); carriers[i] = sentence or None. Returns {i: entity}."""
+    todo = [i for i, c in enumerate(cases) if carriers[i] and whole_entity(results[i], c[0]) is None
+            and c[0].lower() in carriers[i].lower()]
+    if not todo:
+        return {}
+    res2 = run_pipeline([((carriers[i], cases[i][4]), cases[i][1]) for i in todo])
+    out = {}
+    for i, r in zip(todo, res2):
+        e = entity_with_text(r, cases[i][0])
+        if e:
+            out[i] = e
+    return out
 
 
 # ------------------------------------------------------------------ unit level: CPython calendar + datedelta shim
@@ -235,3 +268,116 @@ def fingerprints(ctx, funcs, expected):
     if changed:
         ctx.notes.append('source fingerprint changed: ' + ', '.join(changed))
     return got
+
+
+# ------------------------------------------------------------------ the properties, stated independently of the tree
+# (shared by the checks and by harness/mkcontracts_c08_c09.py, which classifies Specs expressions with them)
+
+def monday_of(d):
+    return d - _dt.timedelta(days=d.isoweekday() - 1)
+
+
+def iso(d):
+    return '%04d-%02d-%02d' % (d.year, d.month, d.day)
+
+
+def shift_month(y, m, k):
+    t = y * 12 + (m - 1) + k
+    return t // 12, t % 12 + 1
+
+
+HMS_SECONDS = {'hour': 3600, 'minute': 60, 'second': 1}
+
+
+def c08_oracle(fam, par, R):
+    """Expected `values` list of property C08 for family `fam` with parameters `par` at reference datetime R."""
+    today = R.date()
+    if fam == 'special':
+        v = today + _dt.timedelta(days=par)
+        return [{'timex': iso(v), 'type': 'date', 'value': iso(v)}]
+    if fam == 'ago':
+        unit, n, sign = par
+        v = today + _dt.timedelta(days=sign * n * (7 if unit == 'week' else 1))
+        return [{'timex': iso(v), 'type': 'date', 'value': iso(v)}]
+    if fam == 'hms':
+        unit, n, sign = par
+        v = R + _dt.timedelta(seconds=sign * n * HMS_SECONDS[unit])
+        return [{'timex': v.strftime('%Y-%m-%dT%H:%M:%S'), 'type': 'datetime', 'value': v.strftime('%Y-%m-%d %H:%M:%S')}]
+    if fam == 'weekday':
+        k, wd = par           # wd: 1..7
+        v = monday_of(today) + _dt.timedelta(days=7 * k + wd - 1)
+        return [{'timex': iso(v), 'type': 'date', 'value': iso(v)}]
+    if fam == 'week':
+        s = monday_of(today) + _dt.timedelta(days=7 * par)
+        e = s + _dt.timedelta(days=7)
+        ic = s.isocalendar()
+        return [{'timex': '%04d-W%02d' % (ic[0], ic[1]), 'type': 'daterange', 'start': iso(s), 'end': iso(e)}]
+    if fam == 'weekend':
+        s = monday_of(today) + _dt.timedelta(days=7 * par + 5)
+        e = s + _dt.timedelta(days=2)
+        ic = s.isocalendar()
+        return [{'timex': '%04d-W%02d-WE' % (ic[0], ic[1]), 'type': 'daterange', 'start': iso(s), 'end': iso(e)}]
+    if fam == 'month':
+        y, m = shift_month(today.year, today.month, par)
+        y2, m2 = shift_month(y, m, 1)
+        return [{'timex': '%04d-%02d' % (y, m), 'type': 'daterange', 'start': iso(_dt.date(y, m, 1)),
+                 'end': iso(_dt.date(y2, m2, 1))}]
+    if fam == 'year':
+        y = today.year + par
+        return [{'timex': '%04d' % y, 'type': 'daterange', 'start': '%04d-01-01' % y, 'end': '%04d-01-01' % (y + 1)}]
+    if fam == 'ytd':
+        return [{'timex': '%04d' % today.year, 'type': 'daterange', 'start': '%04d-01-01' % today.year, 'end': iso(today)}]
+    if fam == 'mtd':
+        return [{'timex': '%04d-%02d' % (today.year, today.month), 'type': 'daterange',
+                 'start': iso(today.replace(day=1)), 'end': iso(today)}]
+    if fam == 'now':
+        return [{'timex': 'PRESENT_REF', 'type': 'datetime', 'value': R.strftime('%Y-%m-%d %H:%M:%S')}]
+    raise KeyError(fam)
+
+
+def occurrences_monthday(m, d, today):
+    """(latest occurrence strictly before today, earliest occurrence on or after today)."""
+    def exists(y):
+        return 1 <= y <= 9999 and d <= calendar.monthrange(y, m)[1]
+    y = today.year
+    fut = next(_dt.date(k, m, d) for k in range(y, y + 9) if exists(k) and _dt.date(k, m, d) >= today)
+    past = next(_dt.date(k, m, d) for k in range(y, y - 9, -1) if exists(k) and _dt.date(k, m, d) < today)
+    return past, fut
+
+
+def c09_oracle(fam, par, R):
+    today = R.date()
+    if fam == 'monthday':
+        past, fut = occurrences_monthday(par[0], par[1], today)
+        tx = 'XXXX-%02d-%02d' % (par[0], par[1])
+    else:
+        fut = today + _dt.timedelta(days=(par - today.isoweekday()) % 7)
+        past = fut - _dt.timedelta(days=7)
+        tx = 'XXXX-WXX-%d' % par
+    return [{'timex': tx, 'type': 'date', 'value': iso(past)}, {'timex': tx, 'type': 'date', 'value': iso(fut)}]
+
+
+CULTURES = {'Spanish': 'es-es', 'French': 'fr-fr', 'Portuguese': 'pt-br', 'Italian': 'it-it', 'German': 'de-de',
+            'Dutch': 'nl-nl', 'Chinese': 'zh-cn', 'English': 'en-us'}
+
+
+def load_contract(name):
+    import json
+    import os
+    with open(os.path.join(common.VERIF, 'contracts', name + '.json'), encoding='utf-8') as f:
+        return json.load(f)
+
+
+def cap_reports(ctx, per_signature=12):
+    """Keep at most `per_signature` reports of one not-yet-known signature (vcheck keeps 200 reports in all), so that a
+    frequent signature cannot crowd out a rare one; totals go to the evidence. Known findings are counted in full."""
+    raw = ctx.report
+    counts = {}
+
+    def report(kind, signature, detail, failing_input=None, property_fails=None):
+        known = any(f.get('property') == ctx.prop and f.get('signature') == signature for f in ctx.known.get('findings', []))
+        counts[signature] = counts.get(signature, 0) + 1
+        ctx.extra['signature_counts'] = dict(counts)
+        if known or counts[signature] <= per_signature:
+            raw(kind, signature, detail, failing_input=failing_input, property_fails=property_fails)
+    ctx.report = report
